@@ -249,7 +249,12 @@ def run_balanced_shallow_water(ctx):
         s = np.polynomial.Polynomial([0.0, 1.0])
         E = [(-(s * p * p + 2 * Om * a * s * p)).integ() for p in P]
         Ek = np.stack([e(s1) for e in E])                                            # required p_k (up to a constant)
-        D = sw.get_density_ratios(np.asarray(specs.densities)) + np.eye(nl)      # p = (I + D) potential  (own layer + layers above/below)
+        # Independent of the code under test (hydrostatics of a stack of immiscible layers, top = layer 0): the pressure at height z inside layer i
+        # is g sum_{j<i} rho_j h_j (weight of the layers above) + g rho_i (eta_i - z) with eta_i = sum_{j>=i} h_j the height of its upper interface, so
+        # the force potential is (1/rho_i) p = sum_{j<i} (rho_j / rho_i) Phi_j + sum_{j>=i} Phi_j with Phi_j = g h_j:
+        #   D[i, j] = rho_j / rho_i for layers above (j < i), 1 for the layer itself and the layers below (j >= i)
+        rho = np.asarray(specs.densities, float)
+        D = np.array([[rho[j] / rho[i] if j < i else 1.0 for j in range(nl)] for i in range(nl)])
         pot = np.linalg.solve(D, Ek)
         # vorticity of the zonal jet: zeta = -(1/(a cos)) d(u cos)/dtheta = -(1/a) d(u cos)/ds
         zeta = np.stack([-(((1 - s * s) * p).deriv())(s1) / a for p in P])
@@ -289,7 +294,7 @@ def clauses(tier, seed):
   fsw = [SW + 'ShallowWaterEquations.explicit_terms', SW + 'ShallowWaterEquations.implicit_terms', 'dinosaur.shallow_water_states.one_layer',
          'dinosaur.shallow_water_states.multi_layer', 'dinosaur.primitive_equations_states.isothermal_rest_atmosphere']
   from contracts import column_contracts, vertical_matrix_contracts
-  deductive = column_contracts.clauses()['C05'] + vertical_matrix_contracts.clauses(only=('get_sigma_ratios', 'get_geopotential', 'canary'))
+  deductive = column_contracts.clauses()['C05'] + column_contracts.clauses()['C05sw'] + vertical_matrix_contracts.clauses(only=('get_sigma_ratios', 'get_geopotential', 'canary'))
   for c in deductive:
     if c.replay is None:
       c.replay = rerun_replay(run_generic_dry)
